@@ -77,6 +77,8 @@ fn check(c: &Case, obs: &mut Obs) -> Result<(), Fail> {
             legacy_outputs: true,
             extra_fee: 0,
             certs: t.certs.clone(),
+            aux_form: 0,
+            early_multiasset: false,
         };
         let tw = Tweaks { change_delta: if t.unbalanced { 1 } else { 0 }, ..Default::default() };
         match forge::forge_with(&spec, &tw) {
